@@ -40,7 +40,10 @@ try:
     res["demo_passes_without_change"] = rc2 == 0
     if rc2 != 0:
         res["demo_out_without"] = out2[-600:]
-    # our check against /repo with the patch
+    # our check against /repo with the patch (exclusive use of /repo)
+    import fcntl
+    lockf = open("/tmp/repo.lock", "w")
+    fcntl.flock(lockf, fcntl.LOCK_EX)
     rc, out = sh("git -C /repo apply %s" % patch)
     if rc == 0:
         try:
